@@ -4,7 +4,7 @@ from ..rules import conv
 META = {
     "title": "Lanczos ground-state search is variational and meets its residual",
     "technique": "static analysis: path-sensitive guard analysis of the convergence flag, must-raise analysis "
-                 "of the public entry, who-may-call",
+                 "of the public entry, who-may-call; scan for rewrites of the convergence flags with an embedded positive self-test",
     "design_ref": "DESIGN.md §5 C08",
     "explanation": "CONV: _lowest_eigenvector_krylov_method reports converged=True only on paths where "
                    "`resid < residual_tolerance` or the breakdown test `beta < norm_tolerance` was taken true; "
